@@ -5,7 +5,7 @@ from vlib import fixtures
 from vlib.mir import Fn
 import re
 
-from rules import taint, trunc
+from rules import taint, trunc, uninit
 
 FILES = ['src/entropy/huffman.rs', 'src/entropy/fse.rs', 'src/entropy/rans.rs', 'src/entropy/dictionary.rs',
          'src/compression/mod.rs', 'src/compression/simd_lz77.rs', 'src/compression/dict_zip/compressor.rs',
@@ -29,14 +29,16 @@ def analyse(ctx, fx, files=FILES, prefix=""):
                 if cl.seed_entry(fid):
                     entries.append(fid)
     res = cl.run()
+    zf = taint.zero_writable_fields(fx)
     nsinks = 0
     for fid, (fn, ft) in sorted(res.items()):
         ctx.analysed_fns.add(fid)
         nsinks += taint.check_sinks(ctx, fn, ft, prefix)
         nsinks += taint.check_panics(ctx, fn, ft, prefix + "R-PANIC")
-        ctx.instance(prefix + "R-DIV.sites", taint.check_div(ctx, fn, ft, rule=prefix + "R-DIV"))
+        ctx.instance(prefix + "R-DIV.sites", taint.check_div(ctx, fn, ft, rule=prefix + "R-DIV", zero_fields=zf))
         taint.check_arith(ctx, fn, ft, rule=prefix + "R-ARITH.mul", ops=("Mul", "MulWithOverflow", "MulUnchecked"), fx=fx)
         ctx.instance(prefix + "R-ARITH.mul.guards_examined", len(taint.Guards(fn, ft).items))
+    taint.recursion_cycles(ctx, res, rule=prefix + "R-RECURSE")
     ctx.instance(prefix + "entries", len(entries))
     ctx.instance(prefix + "closure_fns", len(res))
     ctx.instance(prefix + "untrusted_sinks", nsinks)
@@ -45,7 +47,7 @@ def analyse(ctx, fx, files=FILES, prefix=""):
 
 def run(ctx):
     fx = ctx.facts("default")
-    fixtures.run(ctx, ['taint', 'trunc', 'arithmul', 'div'])
+    fixtures.run(ctx, ['taint', 'trunc', 'arithmul', 'div', 'recurse', 'uninit'])
     cl, entries, res = analyse(ctx, fx)
     nt = 0
     for fid in fx.fn_ids():
@@ -55,6 +57,9 @@ def run(ctx):
             rec = fx.raw(fid, k)
             if rec['file'].startswith('src/'):
                 nt += trunc.check(ctx, Fn(rec))
+    # decoders that build arrays in place keep the storage wrapped in MaybeUninit until every slot is written
+    uninit.run(ctx, fx, fx.files() if ctx.tier == 'thorough' else FILES)
+    ctx.floor('R-UNINIT.sites', 1)
     ctx.instance('R-TRUNC.decoders', nt)
     ctx.floor('R-TRUNC.decoders', 5)
     ctx.floor("entries", 150)
